@@ -245,6 +245,112 @@ def rule_d(ctx, rule='C17.d'):
                           'between')
 
 
+def rule_e(ctx):
+    """A reconnect request reaches the listener, once per request, and does not wedge it: reconnect() sets the event
+    the listener waits on; each iteration waits first, skips while a connect is in progress, otherwise marks the
+    connect in progress, closes, connects and clears the event; the in-progress mark is always taken back."""
+    rep = ctx.report
+    slots = ctx.slots
+    C = slots.RSocketClient
+    f = C.lookup('_reconnect_listener')
+    rc = C.lookup('reconnect')
+    if f is None or rc is None:
+        raise AnalysisError('C17.e: reconnect / _reconnect_listener vanished')
+    ps = ctx.paths(f, C, inline_depth=1, no_inline={'connect', '_close', 'stop_all_streams'})
+    waits = {}
+    for p in ps:
+        for e in p.events:
+            if e.kind == 'call' and e.data.get('name') == 'wait' and e.data.get('awaited') and \
+                    e.data.get('recv') is not None and strip_epoch(e.data['recv'].term)[0] == 'attr':
+                waits[strip_epoch(e.data['recv'].term)[2]] = e
+    if len(waits) != 1:
+        rep.bad('C17.e', 'RSocketClient._reconnect_listener / waits for a request', f,
+                'the listener does not wait on one event before reconnecting (%s): it reconnects in a busy loop or '
+                'never' % sorted(waits))
+        return
+    ev_attr = next(iter(waits))
+    # reconnect() sets that event
+    ok = False
+    for p in ctx.paths(rc, C, inline_depth=1):
+        if p.outcome == 'return' and any(e.kind == 'call' and e.data.get('name') == 'set' and
+                                         e.data.get('recv') is not None and
+                                         strip_epoch(e.data['recv'].term) == ('attr', ('self',), ev_attr)
+                                         for e in p.events):
+            ok = True
+        elif p.outcome == 'return':
+            ok = False
+            break
+    rep.add('C17.e', 'RSocketClient.reconnect / sets the event the listener waits on', rc, ok,
+            'reconnect() sets self.%s' % ev_attr if ok else
+            'reconnect() does not set self.%s: the request never reaches the listener' % ev_attr)
+    # per iteration
+    flag = None
+    ok = True
+    why = ''
+    n_conn = n_skip = 0
+    for p in ps:
+        evs = p.events
+        it_start = [e for e in evs if e.kind == 'loop' and e.data.get('phase') == 'enter']
+        it_end = [e for e in evs if e.kind == 'loop' and e.data.get('phase') in ('back', 'cut', 'break')]
+        if not it_start:
+            continue
+        lo = it_start[0].seq
+        hi = it_end[0].seq if it_end else 10 ** 9
+        body = [e for e in evs if lo < e.seq < hi]
+        w = [e for e in body if e.kind == 'call' and e.data.get('name') == 'wait']
+        closes = [e for e in body if e.kind == 'call' and e.data.get('name') == '_close']
+        conns = [e for e in body if e.kind == 'call' and e.data.get('name') == 'connect']
+        clears = [e for e in body if e.kind == 'call' and e.data.get('name') == 'clear' and
+                  e.data.get('recv') is not None and strip_epoch(e.data['recv'].term) == ('attr', ('self',), ev_attr)]
+        conds = [e for e in body if e.kind == 'cond' and e.data['key'][0] == 'truth' and
+                 strip_epoch(e.data['key'][1])[0] == 'attr' and strip_epoch(e.data['key'][1])[1] == ('self',)]
+        if not w or (closes and w[0].seq > closes[0].seq):
+            ok, why = False, 'an iteration closes the connection without having waited for a reconnect request'
+            continue
+        if not clears:
+            ok, why = False, ('an iteration ends without clearing the request event: the listener reconnects again '
+                              'and again for one request')
+        if conns:
+            n_conn += 1
+            if not conds or conds[0].data['value'] is not False:
+                ok, why = False, 'a reconnect is performed although one is already in progress'
+                continue
+            flag = strip_epoch(conds[0].data['key'][1])[2]
+            marks = [e for e in body if e.kind == 'store' and e.data['target'][0] == 'attr' and
+                     e.data['target'][2] == flag and e.data['value'].is_const() and e.data['value'].const is True and
+                     e.seq < conns[0].seq]
+            if not marks:
+                ok, why = False, 'the connect-in-progress flag is not set before the reconnect starts'
+        elif conds and conds[0].data['value'] is True and not closes:
+            n_skip += 1
+        elif conds and conds[0].data['value'] is False:
+            ok, why = False, 'with no connect in progress the request is not acted upon'
+    rep.add('C17.e', 'RSocketClient._reconnect_listener / one reconnect per request, none while one is in progress', f,
+            ok and n_conn > 0 and n_skip > 0,
+            why or 'wait -> (in progress: skip | mark, clear, close, fresh future, connect) -> clear (%d paths)' %
+            len(ps))
+    # the mark is taken back on every way out of the connect attempt
+    if flag:
+        cn = C.lookup('_connect_new_transport')
+        okf = cn is not None
+        n = 0
+        if cn is not None:
+            for p in ctx.paths(cn, C, exc=('app', 'cancel', 'transport'), inline_depth=1):
+                if p.outcome == 'cut':
+                    continue
+                n += 1
+                resets = [e for e in p.events if e.kind == 'store' and e.data['target'][0] == 'attr' and
+                          e.data['target'][2] == flag and e.data['value'].is_const() and
+                          e.data['value'].const is False]
+                if not resets:
+                    okf = False
+        rep.add('C17.e', 'RSocketClient._connect_new_transport / connect-in-progress flag cleared on every exit',
+                cn or f, okf and n > 0,
+                'self.%s = False on all %d paths (normal, no transport, transport error, cancel)' % (flag, n)
+                if okf and n else 'the connect attempt can end with self.%s still set: every later reconnect request '
+                                  'is ignored' % flag)
+
+
 def rule_plumbing(ctx):
     """Reconnect closes the old connection: tasks stopped, old transport closed; hooks of the sender run per connection."""
     from . import plumbing
@@ -252,4 +358,4 @@ def rule_plumbing(ctx):
     plumbing.rule_sender_hooks(ctx, 'C17.b')
 
 
-RULES = [('C17.a', rule_a), ('C17.b', rule_b), ('C17.c', rule_c), ('C17.d', rule_d), ('C17.b', rule_plumbing)]
+RULES = [('C17.a', rule_a), ('C17.b', rule_b), ('C17.c', rule_c), ('C17.d', rule_d), ('C17.e', rule_e), ('C17.b', rule_plumbing)]
